@@ -524,7 +524,7 @@ def describe():
     return {
         "rule": "histories are drawn by a seeded PRNG: 2-5 programs loaded from generated scripts (plain, "
                 "templates with scalar/array parameters, tdm, argument-less operations, register transforms), "
-                "then 3-30 steps of dumps / template call (valid, missing value, wrong dimension) / to_DiGraph "
+                "then 3-30 steps of dumps / dump to a writer that may fail / template call (valid, missing value, wrong dimension) / to_DiGraph "
                 "/ match_template / attribute reads / deepcopy interleaved with mutations of produced objects; "
                 "distinct by plan digest; non-trivial when a read-only operation ran on a template or on a "
                 "program with an argument-less operation, at least one mutation happened and the model was "
